@@ -32,7 +32,7 @@ def run_taskset_part(ctx):
     rng = random.Random(ctx.seed * 7919 + 47)
     g = tc.Gen(rng)
     scens = []
-    for _ in range(30 if thorough else 3):
+    for _ in range(30 if thorough else 8):
         s = g.single(throws=0.0, cancel=0.1, nested=0.3, pools=(1, 2, 3))
         scens.append(s.replace('mult=32', 'mult=1'))
     r = tc.run_scenarios(ctx, exe, [('task sets: force-queued submissions', FIXED, 6 if thorough else 2),
